@@ -18,6 +18,9 @@
 #ifndef VF_CALLS
 #define VF_CALLS 1
 #endif
+#ifndef VF_RFIRST
+#define VF_RFIRST 0      /* 1: the CO_RETURN / CO_THROW clause is written BEFORE the CO_YIELD clauses (any clause order is legal) */
+#endif
 template <typename T>
 struct co
 {
@@ -111,13 +114,17 @@ extern "C" void harness(void)
   int y0 = (int)verif_nondet_uint(), y1 = (int)verif_nondet_uint(), y2 = (int)verif_nondet_uint(), rv = (int)verif_nondet_uint();
   unsigned effects = 0;
 #line 200
-  auto e = NAMED_REQUIRE_CALL(m, f(ANY(int))).TIMES(VF_CALLS).LR_SIDE_EFFECT(++effects) Y0 Y1 Y2
 #if VF_END == 0
-    .CO_RETURN(rv);
+#define ENDCLAUSE .CO_RETURN(rv)
 #elif VF_END == 1
-    .CO_THROW(rv);
+#define ENDCLAUSE .CO_THROW(rv)
 #else
-    .CO_RETURN(thrower(rv));
+#define ENDCLAUSE .CO_RETURN(thrower(rv))
+#endif
+#if VF_RFIRST
+  auto e = NAMED_REQUIRE_CALL(m, f(ANY(int))).TIMES(VF_CALLS).LR_SIDE_EFFECT(++effects) ENDCLAUSE Y0 Y1 Y2;
+#else
+  auto e = NAMED_REQUIRE_CALL(m, f(ANY(int))).TIMES(VF_CALLS).LR_SIDE_EFFECT(++effects) Y0 Y1 Y2 ENDCLAUSE;
 #endif
 #line 300
   bool threw_at_call = false;
